@@ -92,6 +92,10 @@ impl PkeSealingVersion for V1 {
         let c = rsa_encrypt(&sealing_key.0, &BigUint::from_bytes_be(&r))
             .map_err(|_| PasetoError::CryptoError)?
             .to_bytes_be();
+        // `to_bytes_be` strips leading zero bytes; the ciphertext is always 512 bytes on the wire
+        let mut padded = vec![0u8; 512usize.saturating_sub(c.len())];
+        padded.extend_from_slice(&c);
+        let c = padded;
 
         let k = sha2::Sha384::digest(&c);
 
